@@ -34,10 +34,21 @@ def run_lines(exe, lines, env=None, timeout=3000):
     if env: e.update(env)
     with scratch_dir() as d:
         e.setdefault("OP2DRV_SCRATCH", d)
-        p = subprocess.run([exe], input="\n".join(lines) + "\n", capture_output=True, text=True, env=e, timeout=timeout)
-    out = p.stdout.split("\n")
+        try:
+            p = subprocess.run([exe], input="\n".join(lines) + "\n", capture_output=True, text=True, env=e, timeout=timeout)
+            so, rc, se = p.stdout, p.returncode, p.stderr
+        except subprocess.TimeoutExpired as te:
+            so = te.stdout or ""; se = (te.stderr or ""); rc = -999
+            if isinstance(so, bytes): so = so.decode(errors="replace")
+            if isinstance(se, bytes): se = se.decode(errors="replace")
+            se += "\n[verif] batch timed out"
+            # complete lines only
+            if so and not so.endswith("\n"): so = so[: so.rfind("\n") + 1]
+    out = so.split("\n")
     if out and out[-1] == "": out.pop()
-    return out, p.returncode, p.stderr
+    return out, rc, se
+
+BATCH_TIMEOUT = 900
 
 def run_impl(exe, lines, env=None, chunk=20000):
     """runs lines through op2drv; a crash of the whole batch (only possible for non-isolated commands) is
@@ -46,7 +57,7 @@ def run_impl(exe, lines, env=None, chunk=20000):
     i = 0
     while i < len(lines):
         part = lines[i:i + chunk]
-        o, rc, err = run_lines(exe, part, env)
+        o, rc, err = run_lines(exe, part, env, timeout=BATCH_TIMEOUT)
         if len(o) == len(part) and rc == 0:
             outs += o; i += len(part); continue
         # the process died while executing line len(o) of this part (or wrote a partial line)
@@ -54,12 +65,52 @@ def run_impl(exe, lines, env=None, chunk=20000):
         # outputs before k are complete only if each ended with newline; be conservative: re-run singly around k
         outs += o[:k]
         kind = "fault:crash"
-        if "AddressSanitizer" in err: kind = "fault:asan"
+        if rc == -999: kind = "hang"
+        elif "AddressSanitizer" in err: kind = "fault:asan"
         elif "runtime error" in err: kind = "fault:ubsan"
         elif "ssert" in err: kind = "fault:assert"
         outs.append(kind)
         i += k + 1
     return outs
+
+def _chunks(lines, n):
+    """strided chunks (part j = lines[j::n]) so that runs of heavy cases are spread over the workers"""
+    n = max(1, min(n, len(lines)))
+    return [lines[j::n] for j in range(n)]
+
+def _unchunk(parts_out, total):
+    n = len(parts_out); out = [None] * total
+    for j, part in enumerate(parts_out):
+        for k, v in enumerate(part):
+            if j + k * n < total: out[j + k * n] = v
+    return out
+
+def run_impl_par(exe, lines, env=None, jobs=None):
+    """run_impl over contiguous chunks on several processes (outputs stay in input order)"""
+    jobs = jobs or max(1, NCPU // 2)
+    if len(lines) < 64 or jobs == 1:
+        return run_impl(exe, lines, env)
+    import concurrent.futures
+    parts = _chunks(lines, jobs)
+    with concurrent.futures.ThreadPoolExecutor(len(parts)) as ex:
+        outs = list(ex.map(lambda part: run_impl(exe, part, env), parts))
+    return _unchunk(outs, len(lines))
+
+def run_model_par(exe, lines, jobs=None):
+    """the model driver over contiguous chunks; returns (outputs, stderr) — len(outputs) != len(lines) on failure"""
+    jobs = jobs or max(1, NCPU // 2)
+    if len(lines) < 64 or jobs == 1:
+        o, rc, err = run_lines(exe, lines)
+        return o, err
+    import concurrent.futures
+    parts = _chunks(lines, jobs)
+    with concurrent.futures.ThreadPoolExecutor(len(parts)) as ex:
+        res = list(ex.map(lambda part: run_lines(exe, part), parts))
+    errs = ""
+    for part, (o, rc, err) in zip(parts, res):
+        if len(o) != len(part): errs += err[-500:]
+    if errs: return [], errs
+    return _unchunk([o for o, _, _ in res], len(lines)), errs
 
 def theorem_names(module):
     path = os.path.join(LEAN, module.replace(".", "/") + ".lean")
@@ -228,10 +279,10 @@ def main(argv=None):
         for w in k.get("witness", []):
             cases.append(Case(w["line"], w.get("expect"), "known:" + k.get("status", "")))
     lines = [c.line for c in cases]
-    impl = run_impl(drv, lines, getattr(mod, "ENV", None))
+    impl = run_impl_par(drv, lines, getattr(mod, "ENV", None))
     if model:
         mlines = [c.line.lstrip("!") for c in cases]
-        mo, mrc, merr2 = run_lines(model, mlines)
+        mo, merr2 = run_model_par(model, mlines)
         if len(mo) != len(mlines):
             print(f"[verif] MACHINERY ERROR: model driver returned {len(mo)} lines for {len(mlines)}: {merr2[-500:]}", file=sys.stderr)
             return 2
@@ -279,7 +330,7 @@ def main(argv=None):
             print(f"KNOWN-FINDING: property={pid} {k.get('what','')} [{c.line[:80]}]")
             continue
         key = why.split(":")[0] + c.tag
-        if key in reported and len(violations) >= 5: continue
+        if key in reported or len(violations) >= 6: continue
         reported.add(key)
         violations.append(({"property": pid, "kind": "input", "why": why, "cases": [{"line": c.line, "expect": c.expect, "tag": c.tag}],
                             "impl": a, "model": b, "seed": seed}, ""))
